@@ -15,6 +15,7 @@ import (
 	"math/big"
 	"strings"
 
+	sdkmath "cosmossdk.io/math"
 	sdk "github.com/cosmos/cosmos-sdk/types"
 
 	lptypes "github.com/sunriselayer/sunrise/x/liquiditypool/types"
@@ -112,7 +113,13 @@ func (r *run) doCase(ctx sdk.Context, p amm.PoolInfo, o amm.Op, gh *ghost, mustO
 	gh.observe(r.w.BalInts(ctx, p, feeAddr))
 	pre, _, _ := r.w.K.GetPool(ctx, p.ID)
 	clPre := r.claimables(ctx, p)
-	term, err := r.w.Step(ctx, p, o, mustOK)
+	var term string
+	var err error
+	if strings.HasPrefix(o.Tag, "direct/") {
+		term, err = r.stepDirect(ctx, p, o)
+	} else {
+		term, err = r.w.Step(ctx, p, o, mustOK)
+	}
 	dr, dc := gh.observe(r.w.BalInts(ctx, p, feeAddr))
 	clPost := r.claimables(ctx, p)
 	post, _, _ := r.w.K.GetPool(ctx, p.ID)
@@ -193,6 +200,35 @@ func (r *run) doCase(ctx sdk.Context, p amm.PoolInfo, o amm.Op, gh *ghost, mustO
 		}
 	}
 	return err
+}
+
+// stepDirect executes an incentive allocation the way x/liquidityincentive's BeginBlocker does:
+// Keeper.AllocateIncentive called directly on the block context, not inside a transaction, the
+// error only looked at.  Whatever the call wrote before failing stays in the state.  The model's
+// operation is transactional, so a failing call must leave the state untouched to match it.
+func (r *run) stepDirect(ctx sdk.Context, p amm.PoolInfo, o amm.Op) (term string, err error) {
+	user := r.w.H.Accts[o.Sender%len(r.w.H.Accts)].Addr
+	pre := r.w.Dump(ctx, p, user)
+	var cs sdk.Coins
+	for i, x := range o.Coins {
+		if x.Sign() > 0 {
+			cs = cs.Add(sdk.NewCoin(p.Denoms[i], sdkmath.NewIntFromBigInt(x)))
+		}
+	}
+	res := "(Ok [])"
+	func() {
+		defer func() {
+			if e := recover(); e != nil {
+				err = fmt.Errorf("panic: %v", e)
+				res = "Panic"
+			}
+		}()
+		if err = r.w.K.AllocateIncentive(ctx, p.ID, user, cs); err != nil {
+			res = "(Err 1)"
+		}
+	}()
+	post := r.w.Dump(ctx, p, user)
+	return fmt.Sprintf("{| c_pre := %s; c_op := %s; c_res := %s; c_post := %s; c_must_ok := false |}", pre, o.Coq(), res, post), err
 }
 
 // operations of the final claim-order branches run in discarded contexts: they must not reset the
